@@ -38,7 +38,7 @@ func init() {
 	for _, n := range simhook.ProbeNames {
 		pn = append(pn, n)
 	}
-	pn = append(pn, "same-type-first-used-by-2+-tasks", "type-nested-in-another-tasks-type", "recursive-type", "map-field-type(proto structPool)", "anymap-of-fresh-types", "ops", "typeof-identity-checked", "result-stability-checked", "steady-state-rechecked", "corrupted-input-ops", "case-changed-keys", "marshal-output>64KiB", "marshal-of-a-map-with-127..300-keys", "raw-messages-in-a-reused-buffer", "read-only-input-shared-by-several-calls", "writes-behind-a-window-being-parsed", "caches-prewarmed-with-many-types")
+	pn = append(pn, "same-type-first-used-by-2+-tasks", "type-nested-in-another-tasks-type", "recursive-type", "map-field-type(proto structPool)", "anymap-of-fresh-types", "ops", "typeof-identity-checked", "result-stability-checked", "steady-state-rechecked", "corrupted-input-ops", "case-changed-keys", "marshal-output>64KiB", "marshal-of-a-map-with-127..300-keys", "raw-messages-in-a-reused-buffer", "read-only-input-shared-by-several-calls", "writes-behind-a-window-being-parsed", "calls-on-unsupported-types", "caches-prewarmed-with-many-types")
 	core.Register(&core.Property{
 		ID: "C09", Level: "exploration", Engine: "sched", Race: true, Sched: true,
 		Quick: 60000, Thorough: 3000000,
@@ -85,11 +85,12 @@ const (
 	opThriftUnmarshal
 	opJSONMarshalRawInPlace
 	opWriteBehindInput
+	opUnsupportedType
 	numOps
 )
 
 var opNames = []string{"json.Marshal", "json.Append", "json.Unmarshal", "json.Parse", "json.Encoder.Encode", "json.Decoder.Decode", "json.Tokenizer", "json.Marshal(map[string]any of fresh types)", "json.Tokenizer(error, Reset, reuse)",
-	"proto.Marshal", "proto.Size", "proto.Unmarshal", "proto.MarshalTo", "proto.TypeOf", "thrift.Marshal", "thrift.Unmarshal", "json.Marshal(RawMessage in the caller's reused buffer)", "caller writes behind the window another call is parsing"}
+	"proto.Marshal", "proto.Size", "proto.Unmarshal", "proto.MarshalTo", "proto.TypeOf", "thrift.Marshal", "thrift.Unmarshal", "json.Marshal(RawMessage in the caller's reused buffer)", "caller writes behind the window another call is parsing", "a type the codec refuses (error or recovered panic)"}
 
 type c09Op struct {
 	kind    int
@@ -115,6 +116,7 @@ type c09Op struct {
 	// operation whose spare an opWriteBehindInput writes to
 	spare  []byte
 	target *c09Op
+	sub    int
 }
 
 type c09Res struct {
@@ -174,6 +176,30 @@ func (op *c09Op) exec() (res c09Res) {
 	case opJSONMarshalAnyMap:
 		b, err := json.Marshal(op.vals)
 		res.out, res.err = ownSpare(b), errStr(err)
+	case opUnsupportedType:
+		// the call fails (error, or a panic the caller recovers) as it does alone,
+		// and leaves the package usable for everybody else
+		func() {
+			defer func() {
+				if e := recover(); e != nil {
+					res.err = "panic: " + clipStr(fmt.Sprint(e), 120)
+				}
+			}()
+			bad := c09BadValues[op.sub%len(c09BadValues)]
+			switch op.sub / len(c09BadValues) % 4 {
+			case 0:
+				_, err := json.Marshal(bad)
+				res.err = errStr(err)
+			case 1:
+				res.out = []byte(fmt.Sprint(proto.TypeOf(reflect.TypeOf(bad))))
+			case 2:
+				_, err := proto.Marshal(bad)
+				res.err = errStr(err)
+			default:
+				_, err := thrift.Marshal(binProto, bad)
+				res.err = errStr(err)
+			}
+		}()
 	case opWriteBehindInput:
 		// the caller goes on filling its buffer behind the window it handed out
 		for i := range op.target.spare {
@@ -299,6 +325,17 @@ func ownSpare(b []byte) []byte {
 
 func isJSONDecode(k int) bool {
 	return k == opJSONUnmarshal || k == opJSONParse || k == opJSONDecoder || k == opJSONTokenizer
+}
+
+// values of types the codecs refuse: each call fails on its own
+var c09BadValues = []any{
+	struct{ C chan int }{},
+	struct{ F func() }{},
+	struct {
+		A int        `protobuf:"varint,1,opt,name=a" thrift:"1"`
+		Z complex128 `protobuf:"fixed64,2,opt,name=z" thrift:"2"`
+	}{},
+	&struct{ C chan int }{},
 }
 
 var c09WarmTypes []reflect.Type
@@ -727,6 +764,10 @@ func runC09(r *core.Run) {
 				ty = hot
 			}
 			op := c09MakeOp(t, ty, pool)
+			if t.Chance(1, 40) {
+				op = &c09Op{ty: ty, kind: opUnsupportedType, sub: t.Intn(64)}
+				r.Probe("calls-on-unsupported-types")
+			}
 			if rawTheme && t.Chance(1, 2) {
 				// records of one size read into the task's one buffer and passed on as
 				// json.RawMessage: full-length, shorter and padded, or corrupted
